@@ -518,6 +518,9 @@ pub fn gen_history_with(seed: u64, focus: &str, thorough: bool, forced: Option<V
             k.min_items_first + r.below(if thorough { 1500 } else { 400 }) as usize
         } else if big && round == 0 {
             200 + r.below(400) as usize
+        } else if big && k.min_items_first > 0 && r.chance(1, 3) {
+            // a large incremental insertion (more than one minimum batch)
+            210 + r.below(300) as usize
         } else if big {
             r.below(150) as usize
         } else if mid {
@@ -526,8 +529,14 @@ pub fn gen_history_with(seed: u64, focus: &str, thorough: bool, forced: Option<V
             r.below(k.max_ops_per_round as u64 + 1) as usize
         };
         // op mix of the round (swarm): add-heavy, delete-heavy, balanced
-        let mix: [u32; 3] = *r.pick(&[[8, 1, 1], [3, 5, 2], [5, 3, 2], [10, 0, 0], [1, 8, 1]]);
-        for _ in 0..n_ops {
+        let mut mix: [u32; 3] = *r.pick(&[[8, 1, 1], [3, 5, 2], [5, 3, 2], [10, 0, 0], [1, 8, 1]]);
+        // memory-hint runs: large rounds insert distinct fresh ids, so that one pass really sees > 200 pending ids
+        let fresh_ids = k.min_items_first > 0 && n_ops >= 200;
+        if fresh_ids {
+            mix = [12, 1, 1];
+        }
+        let fresh_base = r.below(1 << 20) as usize;
+        for op_no in 0..n_ops {
             let ix = r.below(indexes.len() as u64) as usize;
             let sh = &mut shadows[ix];
             let uni = &universes[ix];
@@ -562,7 +571,9 @@ pub fn gen_history_with(seed: u64, focus: &str, thorough: bool, forced: Option<V
             match r.weighted(&mix) {
                 0 => {
                     // add: fresh id or overwrite
-                    let id = if !sh.live.is_empty() && r.chance(1, 6) {
+                    let id = if fresh_ids {
+                        uni[(fresh_base + op_no) % uni.len()]
+                    } else if !sh.live.is_empty() && r.chance(1, 6) {
                         *sh.live.iter().nth(r.below(sh.live.len() as u64) as usize).unwrap()
                     } else {
                         *r.pick(uni)
